@@ -44,3 +44,8 @@ def run(ctx):
     ctx.run_rule("K5c", r_round.rule_K5_c)
     ctx.run_rule("F8c", r_round.rule_F8_c)
     ctx.run_rule("STc", r_round.rule_ST_c)
+    # the assembly flavour (the default build) against the same spec terms
+    import r_asmsym
+    ctx.run_rule("R1asm1", r_asmsym.rule_R1asm_single)
+    ctx.run_rule("R1asmH", r_asmsym.rule_R1asm_hash)
+    ctx.run_rule("R1asmX", r_asmsym.rule_R1asm_xof)
